@@ -153,6 +153,9 @@ def prof_C10(d, rng):
     if not d["hooks"] and rng.random() < 0.7:
         d["hooks"] = [h for h in W.HOOK_NAMES if rng.random() < 0.6]
     d["size"] = rng.choice(["small", "medium", "medium"])
+    if rng.random() < 0.15:
+        # an outline without any row (or only empty blocks): a location addressing it selects nothing
+        d["opts"] = {"allow_empty_outline": True, "p_outline": 0.5}
 
 
 def prof_C12(d, rng):
